@@ -269,12 +269,12 @@ def compare_equations(ctx, before, after, fresh, assignments, planted=None, bala
             ctx.count("points_skipped_tolerance-undefined")
             continue
         if origin.startswith("solved-after"):
-            # a is a solution of the rewritten equation (exactly); is it one of the original?
-            scale = sum((abs(v) for v in sides_of(rb.value)), Fraction(0))
-            # rounding of folded constants moves the rewritten equation's root slightly: the
-            # original's residual there must then be small compared with its operands
-            if b != 0 and (tol == 0 and not fresh or abs(b) > Fraction(1, 10**6) * max(scale, 1)):
-                return "solution-added", {"assignment": G.show_assignment(a), "origin": origin, "before_residual": _show(b), "after_residual": _show(c)}
+            # a is an exact solution of the REWRITTEN equation; the original's residual there may differ from the
+            # rewritten one's (zero) only by what rounding of the freshly folded constants explains at this very point
+            # (a root that exists only through rounding - e.g. a slope of 1e-17 left by 0.333..y - (1/3)y - lies at
+            # astronomically large values, where that allowance is large too)
+            if abs(b) > tol:
+                return "solution-added", {"assignment": G.show_assignment(a), "origin": origin, "before_residual": _show(b), "after_residual": _show(c), "allowed": float(tol)}
             true_points += 1
             continue
         if b == 0:
